@@ -114,6 +114,7 @@ func Assert(ok bool, msg string) {
 func Reach(label string)           {}
 func Native() bool                 { return true }
 func ReportRaces()                 {}
+func ReportHeapRaces()             {}
 func Ite(c bool, a, b int) int {
 	if c {
 		return a
